@@ -226,14 +226,14 @@ class Binder:
         v.case((route, f, e))
         self.by_route[route] += 1
         self.by_spelling[kind] += 1
-        why = mismatch(got, want)
+        why = mismatch(got, want, vec['scale'][e])
         if why:
             env = {k: show(x) for k, x in self.tables['envs'][e].items()} \
                 if self.uses_refs(vec) else {}
             v.violation(
                 f'[{route}/{kind}] {f} {env or ""}: reference value {show(want)}; {why}',
                 dict(route=route, spelling=kind, formula=f, env=e, toks=vec['toks'],
-                     want=want, got=brief(got, 200)))
+                     want=want, scale=vec['scale'][e], got=brief(got, 200)))
 
     @staticmethod
     def uses_refs(vec):
@@ -460,6 +460,13 @@ def run(tier, seed):
     vec_l = fresh(vec_l)
     bind_parallel(v, totals, tables, vec_l, seed, 1.0, procs)
 
+    res_s, vec_s = wait('sim')
+    v.add_tlc(res_s, f'Formula simulate <= {sim_len} tokens')
+    vec_s = [x for x in vec_s if len(x['toks']) >= sim_min]
+    rnd.shuffle(vec_s)
+    vec_s = fresh(vec_s[:1000 if quick else 12000])
+    bind_parallel(v, totals, tables, vec_s, seed + 2, 1.0, procs, chunk=250)
+
     res_p, _, vec_p = wait('prec')
     v.add_tlc(res_p, f'Formula prec <= {n_prec} tokens')
     taken = actions_taken(vec_p)
@@ -467,16 +474,8 @@ def run(tier, seed):
         if not taken[act]:
             raise tlc.MachineryFailure(f'vacuous: action {act} never taken (prec run)')
     vec_p = fresh(vec_p)
-    bind_parallel(v, totals, tables, vec_p, seed + 1, 0.5 if quick else 0.2, procs,
+    bind_parallel(v, totals, tables, vec_p, seed + 1, 0.5 if quick else 0.1, procs,
                   chunk=1500 if quick else 4000, lean_from=99 if quick else 7)
-
-    res_s, vec_s = wait('sim')
-    v.add_tlc(res_s, f'Formula simulate <= {sim_len} tokens')
-    vec_s = fresh([x for x in vec_s if len(x['toks']) >= sim_min])
-    if quick:
-        rnd.shuffle(vec_s)
-        vec_s = vec_s[:1000]
-    bind_parallel(v, totals, tables, vec_s, seed + 2, 1.0, procs, chunk=250)
 
     v.traces = len(seen)
     lens = Counter(len(x['toks']) for x in vec_s)
@@ -535,7 +534,7 @@ def replay(path):
             got = xl.compile_wb(cells).evaluate('S!C1')
         except Exception as exc:     # noqa
             got = exc
-    why = mismatch(got, case['want'])
+    why = mismatch(got, case['want'], case.get('scale', 0))
     print(f"replay {rec['desc']}\n  now: {brief(got, 200)}")
     if why:
         print(f'VIOLATION property={PID} replay={path}\n  {why}')
